@@ -441,6 +441,11 @@ def check_property(pid, tier, scratch, write_baseline=False):
     os.makedirs(os.path.join(VERIF, "evidence"), exist_ok=True)
     for hit, v in known_hits:
         print("KNOWN-FINDING: property=%s %s" % (pid, hit["_line"]))
+    for u, n, ok in sorted(set(foreign)):
+        if not ok:
+            print("NOTE: dependency function %s (unit %s) is rejected on this tree; its clauses belong to another property, whose check reports it" % (n, u))
+    if discharged < obligations and not final_viol and not known_hits and not undecided:
+        undecided.append("internal: %d of %d obligations were not discharged but no violation was attributed - refusing to report success" % (obligations - discharged, obligations))
     if undecided:
         rc = 2
         for u in undecided:
